@@ -105,7 +105,10 @@ def mk_source(kind, env):
 def mk_ps(kind):
     if kind == "none":
         return None
-    p = lw.PostSelection(); p.add(0, (0, 1)) if kind == "r0" else p.add(1, 1)
+    p = lw.PostSelection()
+    if kind == "r0": p.add(0, (0, 1))
+    elif kind == "r1": p.add(1, 1)
+    else: p.add(0, 5)              # "rX": no output can satisfy it - the computation is refused
     return p
 
 
@@ -117,9 +120,10 @@ def sampler_alphabet(env, tier):
     a = [("circuit", k) for k in "abcp"] + [("param", v) for v in (env.R[1], env.L[1])] \
         + [("input", k) for k in ("10", "01")] + [("source", k) for k in ("ideal", "dim", "ind")] \
         + [("src_inplace", "brightness", 1.0), ("src_inplace", "brightness", env.R2),
-           ("backend", "permanent"), ("backend", "slos"), ("read",), ("draw",)]
+           ("backend", "permanent"), ("backend", "slos"), ("read",), ("draw",),
+           ("det", 1, True), ("det_inplace", "photon_counting", False), ("det_inplace", "efficiency", DET_EFF)]
     if tier == "thorough":
-        a += [("det", 1, True), ("det", DET_EFF, False), ("input", "11"), ("src_inplace", "indistinguishability", 0.5), ("edit", "bs"), ("edit", "herald")]
+        a += [("det", DET_EFF, False), ("det_inplace", "p_dark", 0.05), ("input", "11"), ("src_inplace", "indistinguishability", 0.5), ("edit", "bs"), ("edit", "herald")]
     return a
 
 
@@ -134,6 +138,7 @@ def sampler_apply(s, w, op):
     elif k == "read": s.probability_distribution
     elif k == "draw": s.sample_N_inputs(40, seed=1); s.sample()
     elif k == "det": s.detector = emu.Detector(efficiency=op[1], photon_counting=op[2])
+    elif k == "det_inplace": setattr(s.detector, op[1], op[2])
     elif k == "edit":
         if op[1] == "bs": s.circuit.bs(0, 1, reflectivity=0.21)
         else: s.circuit.herald(0, 0)
@@ -189,7 +194,7 @@ def sampler_config(s):
 # ---------------- QuickSampler
 def quick_alphabet(env, tier):
     a = [("circuit", k) for k in "abcp"] + [("param", v) for v in (env.R[1], env.L[1])] \
-        + [("input", k) for k in ("10", "01", "11")] + [("ps", k) for k in ("none", "r0", "r1")] \
+        + [("input", k) for k in ("10", "01", "11")] + [("ps", k) for k in ("none", "r0", "r1", "rX")] \
         + [("pc", True), ("pc", False), ("read",), ("draw",)]
     if tier == "thorough":
         a += [("edit", "bs"), ("edit", "herald")]
@@ -242,7 +247,7 @@ def quick_config(q):
 
 # ---------------- Analyzer
 def analyzer_alphabet(env, tier):
-    return [("circuit", k) for k in "abc"] + [("ps", k) for k in ("none", "r0", "r1")] \
+    return [("circuit", k) for k in "abc"] + [("ps", k) for k in ("none", "r0", "r1", "rX")] \
         + [("analyze", "10", None), ("analyze", "01", "same"), ("analyze", "both", "swap"), ("analyze", "both", None)]
 
 
